@@ -146,9 +146,15 @@ class Transaction:
     @staticmethod
     async def _rollback(backends: list[TransactionBackend]) -> BaseException | None:
         error = None
+        interrupt = None
         for tx_backend in backends:
             try:
                 await tx_backend.rollback()
             except Exception as exc:
                 error = error or exc
+            except BaseException as exc:
+                # cancelled / timed out while releasing this backend: the other backends still have to release their locks
+                interrupt = interrupt or exc
+        if interrupt:
+            raise interrupt
         return error
